@@ -110,6 +110,11 @@ def run_history(start, dt, kinds, compress, route, scenarios):
         for c, i in ((client, iid), (client0, iid0)):
             c.post("/%s/begin-session" % i, json=bsb)
         for j, kind in enumerate(kinds):
+            if kind == "rebegin":
+                # a second game on the same instance: begin-session once more, with other equations (the clock starts again)
+                for c, i in ((client, iid), (client0, iid0)):
+                    c.post("/%s/begin-session" % i, json={"scenario_managers": [SM], "scenarios": list(scenarios), "equations": ["S", "f"]})
+                continue
             body = step_body(kind, scenarios)
             route_ = "run-steps" if kind in MULTI_KINDS else "run-step"
             r = client.post("/%s/%s" % (iid, route_)) if body is None else client.post("/%s/%s" % (iid, route_), json=body)
@@ -232,6 +237,13 @@ def jobs(tier):
                 for compress in (False, True):
                     for route in ("auto", "explicit", "restart"):
                         out.append((st, dt, list(kinds), compress, route, ["base"]))
+    # a second game on the same instance that reaches the clock position of the first one (in one request or step by step)
+    for (st, dt) in ((0, 1), (0.5, 0.5)):
+        for kinds in (["nobody", "rebegin", "nobody"], ["v1", "v1", "rebegin", "rs2e"], ["v1", "rebegin", "v2p"], ["rs2v1", "rebegin", "nobody", "nobody"],
+                      ["v1", "v2p", "rebegin", "nobody"]):
+            for compress in (False, True):
+                for route in ("auto", "explicit", "restart"):
+                    out.append((st, dt, list(kinds), compress, route, ["base"]))
     # step times whose text order differs from their numeric order: negative times, and sessions of more than ten steps
     for (st, dt, n) in ((-2, 1, 1), (-2, 1, 2), (-2, 1, 3), (-2, 1, 4), (-1, 0.5, 1), (-1, 0.5, 2), (-1, 0.5, 3), (-0.3, 0.1, 3), (0, 1, 12), (8, 1, 4)):
         for kinds in (["v1"] + ["nobody"] * (n - 1), ["nobody", "v2p"] + ["empty"] * (n - 2), ["nobody"] * n):
